@@ -96,6 +96,8 @@ class FnContract:
     returns_expr: Optional[str] = None
     task: Optional[str] = None
     ghost_params: Dict[str, str] = field(default_factory=dict)
+    assumed_ensures: List[Clause] = field(default_factory=list)
+    ghost_on_raise: Dict[str, List[str]] = field(default_factory=dict)
 
 
 class Registry:
@@ -161,6 +163,8 @@ class Registry:
         returns_expr: Optional[str] = None,
         task: Optional[str] = None,
         ghost_params: Optional[Dict[str, str]] = None,
+        assumed_ensures: Optional[List[ClauseSrc]] = None,
+        ghost_on_raise: Optional[Dict[str, List[str]]] = None,
     ) -> FnContract:
         short = qualname.split(":")[1]
         rc: Dict[str, List[Clause]] = {}
@@ -193,6 +197,8 @@ class Registry:
             returns_expr=returns_expr,
             task=task,
             ghost_params=dict(ghost_params or {}),
+            assumed_ensures=mk_clauses(f"{short}.assumed-post", assumed_ensures, props),
+            ghost_on_raise=dict(ghost_on_raise or {}),
         )
         for lo in f.loops.values():
             lo["invariant"] = mk_clauses(f"{short}.loopinv", lo.get("invariant"), props)
